@@ -12,8 +12,8 @@ From stdpp Require Import gmap list.
 From Coq Require Import ZArith.
 From KT Require Import Lifecycle LInv LSync Space Discover Rand RandDedup RandRun RandReload.
 
-Theorem C06_sample_is_fresh : ∀ samp mc fuel sp tried seed col v seed',
-  random_values samp mc fuel sp tried seed col = (Some v, seed') → v ∉ tried.
+Theorem C06_sample_is_fresh : ∀ samp draw mc fuel sp tried seed col v seed',
+  random_values samp draw mc fuel sp tried seed col = (Some v, seed') → v ∉ tried.
 Proof. exact random_values_fresh. Qed.
 
 Theorem C06_step : ∀ samp draw allow tune mc c s o,
@@ -35,8 +35,8 @@ Theorem C06_distinct_run_reload : ∀ samp draw allow tune mc c, abort_early c =
   Forall (λ rs, Distinct rs.2) (rrun samp draw allow tune mc c s ops).
 Proof. exact distinct_run_reload. Qed.
 
-Theorem C06_bounded_effort : ∀ samp mc fuel sp tried seed col r seed',
-  random_values samp mc fuel sp tried seed col = (r, seed') →
+Theorem C06_bounded_effort : ∀ samp draw mc fuel sp tried seed col r seed',
+  random_values samp draw mc fuel sp tried seed col = (r, seed') →
   (seed ≤ seed' ≤ seed + Z.of_nat fuel * Z.of_nat (length sp))%Z.
 Proof. exact random_values_effort. Qed.
 
